@@ -12,7 +12,11 @@ INSTR = [("NOP", 1, ""), ("RET", 1, ""), ("SC", 1, ""), ("MV A, {n8}", 2, ""), (
          ("PUSHU A", 1, ""), ("POPU BA", 1, ""), ("MV (0x10), (0x20)", 4, ""), ("EX A, B", 1, ""), ("WAIT", 1, ""),
          # the same opcodes in forms of another length (no prefix / no displacement byte)
          ("MV A, ({m8})", 2, ""), ("MV ({m8}), {n8}", 3, ""), ("MV A, (PX+{n8})", 3, ""), ("MV A, [X]", 2, ""), ("MV A, [X+{n8}]", 3, ""),
-         ("MV [Y-{n8}], A", 3, ""), ("MV [Y], A", 2, ""), ("ADD A, ({m8})", 2, ""), ("ADD A, (BP+PX)", 2, "")]
+         ("MV [Y-{n8}], A", 3, ""), ("MV [Y], A", 2, ""), ("ADD A, ({m8})", 2, ""), ("ADD A, (BP+PX)", 2, ""),
+         # memory-indirect forms: the internal-memory mode nested inside the operand decides whether an n byte is emitted
+         ("MV A, [({m8})]", 3, ""), ("MV A, [(BP+PX)]", 2, ""), ("MV [({m8})], A", 3, ""), ("MV [(BP+PX)], A", 2, ""),
+         ("MV A, [({m8})+{n8}]", 4, ""), ("MV A, [(BP+PX)+{n8}]", 3, ""), ("MV BA, [({m8})]", 3, ""), ("MV BA, [(BP+PX)]", 2, ""),
+         ("MV X, [(BP+{n8})]", 3, ""), ("MV X, [(BP+PX)]", 2, "")]
 DATA = [("defb {n8}", 1, ""), ("defb {n8}, {n8}, {n8}", 3, ""), ("defw {n16}", 2, ""), ("defw {L16}, {n16}", 4, "L"),
         ("defl {L}", 3, "L"), ("defl {n20}, {L}", 6, "L"), ("defs {k}", None, ""), ('defm "{str}"', None, "")]
 
